@@ -67,11 +67,13 @@ def check(prog, rep):
             st, miss, q = ff_status(ffmap, c)
             if st != "full":
                 continue
-            sig = (ff, c.lookup, tuple(sorted(c.atoms)))
+            sig = (ff, c.lookup, tuple(sorted(c.atoms)), c.expected)
             if sig in seen:
                 continue
+            first = (ff, c.lookup) not in {(a, b) for a, b, _, _ in seen}
             seen.add(sig)
-            key = f"charge|{ff}:{c.lookup}"
+            # one obligation per entry; a second cell that reaches the same entry with another formal charge gets its own key
+            key = f"charge|{ff}:{c.lookup}" if first else f"charge|{ff}:{c.lookup}|{c.res}:{c.state}:{c.pos}"
             r1.add(key, abs(q - c.expected) <= TOL,
                    f"{ff.upper()} {c.lookup}: sum of {len(c.atoms)} atom charges = {q:+.4f}, formal charge of "
                    f"{c.res} state {c.state} at position {c.pos} = {c.expected:+d}",
